@@ -485,6 +485,8 @@ def search(ctx, deep=False):
         # odd k: without the instruction kinds / flags that are known findings, so that the rest of such modules is
         # compared too (a module that cannot be read at all hides every other difference)
         feats = None if k % 2 == 0 else tuple(f for f in irgen.ALL_FEATURES if f not in ('copyblob', 'undefined'))
+        if k % 4 == 3:   # + locals/parameters named like module-level values, calls to later functions (irgen extras)
+            feats = feats + tuple(getattr(irgen, 'EXTRA_FEATURES', ()))
         m = irgen.gen_module(rng, size=1 + k % 4, features=feats, name='s%d' % k)
         d = oracle(irimport, m, sem=sem if k % 5 == 0 else None, ignore_volatile=(k % 2 == 1))
         if d is None:
